@@ -14,7 +14,9 @@ fn main() {
     }
     let id = args[1].to_uppercase();
     // keep the real code's logging quiet and panics short
-    std::panic::set_hook(Box::new(|_| {}));
+    if std::env::var("VERIF_DEBUG").is_err() {
+        std::panic::set_hook(Box::new(|_| {}));
+    }
     if args[2] == "--replay" {
         let Some(path) = args.get(3) else {
             eprintln!("--replay needs a file");
@@ -28,7 +30,11 @@ fn main() {
             eprintln!("bad replay file: {e}");
             std::process::exit(2);
         });
-        match props::replay(&id, &v["replay"]) {
+        let Some((_, rf)) = props::lookup(&id) else {
+            eprintln!("unknown property {id}");
+            std::process::exit(2);
+        };
+        match Some(rf(&v["replay"])) {
             None => {
                 eprintln!("no replay support for {id}");
                 std::process::exit(2);
@@ -38,6 +44,10 @@ fn main() {
                 std::process::exit(0);
             }
             Some(Err(msg)) => {
+                if msg.starts_with("MACHINERY") || msg.starts_with("unknown exploration") {
+                    eprintln!("{msg}");
+                    std::process::exit(2);
+                }
                 println!("replay of {path}: {msg}");
                 println!("VIOLATION property={id} replay={path}");
                 std::process::exit(1);
@@ -52,7 +62,51 @@ fn main() {
             std::process::exit(2);
         }
     };
-    let Some(f) = props::lookup(&id) else {
+    // Input sweeps over untrusted bytes run in a child process with an address
+    // space limit, so that an abort (allocation failure, stack overflow,
+    // double panic) in the code under test is caught as a violation instead of
+    // killing the checker.
+    const CHILD_IDS: [&str; 3] = ["C09", "C15", "C18"];
+    if CHILD_IDS.contains(&id.as_str()) && std::env::var("VERIF_CHILD").is_err() {
+        use std::os::unix::process::CommandExt;
+        let exe = std::env::current_exe().expect("current_exe");
+        let mut cmd = std::process::Command::new(exe);
+        cmd.args(&args[1..]).env("VERIF_CHILD", "1");
+        unsafe {
+            cmd.pre_exec(|| {
+                let lim = libc::rlimit {
+                    rlim_cur: 6 << 30,
+                    rlim_max: 6 << 30,
+                };
+                libc::setrlimit(libc::RLIMIT_AS, &lim);
+                Ok(())
+            });
+        }
+        let t0 = Instant::now();
+        let _ = std::fs::remove_file(srtla_verif::util::progress_path(&id));
+        let status = cmd.status().expect("spawn child");
+        match status.code() {
+            Some(c @ (0 | 1 | 2)) => std::process::exit(c),
+            _ => {
+                let marker = std::fs::read_to_string(srtla_verif::util::progress_path(&id))
+                    .unwrap_or_else(|_| "(unknown)".into());
+                let mut rep = srtla_verif::evidence::Report::new();
+                rep.states = 1;
+                rep.transitions = 1;
+                rep.exhaustive = false;
+                rep.violations.push(srtla_verif::evidence::Violation {
+                    key: "abort".into(),
+                    message: format!(
+                        "the sweep process died abnormally ({status}) while exploring: {marker}"
+                    ),
+                    replay: serde_json::json!({"class": marker}),
+                });
+                rep.count_violation("abort", 1);
+                std::process::exit(finish(&id, tier, t0, rep));
+            }
+        }
+    }
+    let Some((f, _)) = props::lookup(&id) else {
         eprintln!("unknown property {id}");
         std::process::exit(2);
     };
